@@ -4,5 +4,7 @@ set -eu
 cd "$(dirname "$0")"
 export CARGO_NET_OFFLINE=true
 mkdir -p build evidence replays
+( cd data && sha256sum -c --quiet tzdata.tar.gz.sha256 )
+rm -rf build/zoneinfo && mkdir -p build/zoneinfo && tar xzf data/tzdata.tar.gz -C build/zoneinfo
 ( cd vlib && cargo build --release --offline --bin vcheck )
 echo "setup ok"
